@@ -430,7 +430,7 @@ def generators_stage(prop, tier, seed, threads=4):
     st = StageResult("mc+rp:generators")
     t0 = time.time()
     wd = vlib.workdir(f"{prop}_gens")
-    cfg = "CONSTANTS MaxParty = 32 MaxIdx = 64\nSPECIFICATION Spec\nINVARIANTS Injective MaskInjective Disjoint Layout CapIndep Emit\nCHECK_DEADLOCK FALSE\n"
+    cfg = "CONSTANTS MaxParty = 1024 MaxIdx = 64\nSPECIFICATION Spec\nINVARIANTS Injective MaskInjective Disjoint Layout CapIndep Emit\nCHECK_DEADLOCK FALSE\n"
     r = vlib.run_tlc("MC_Generators", cfg, wd, workers=2, timeout=900)
     if not r["ok"]:
         raise vlib.ToolError("MC_Generators failed: " + str(r["violated"]) + r["out"][-2000:])
@@ -442,7 +442,7 @@ def generators_stage(prop, tier, seed, threads=4):
     st.samples.append({"derivation_script": {"prefix": script["prefix"], "first_label": script["labels"][0], "mask_label_1": script["mask_labels"][0]}})
     for g in ("rist", "fm"):
         out = json.loads(vlib.run_harness(["gens", "--script", sp, "--group", g, "--seed", str(seed), "--threads", str(threads),
-                                           "--maxcap", "32"], timeout=1800))
+                                           "--maxcap", "64"], timeout=1800))
         st.evaluations += out["generators_checked"]
         st.traces += 1
         st.notes[g] = {"generators_checked": out["generators_checked"], "distinct_encodings": out["distinct_encodings"]}
@@ -541,7 +541,7 @@ def threads_stage(prop, tier, seed, races=6, race_threads=8):
     if len(hist) > limit:
         # always keep histories in which one thread runs a call and later a related one (smaller before larger parameter
         # set, a recovery before a recovery with more rounds, a refused batch before a valid one, the same call twice)
-        pairs = {(0, 3), (1, 3), (2, 3), (0, 1), (0, 2), (5, 11), (6, 11), (10, 6), (10, 9), (8, 6), (4, 4), (9, 9), (4, 5)}
+        pairs = {(0, 3), (1, 3), (2, 3), (0, 1), (0, 2), (5, 11), (6, 11), (10, 6), (10, 9), (8, 6), (4, 4), (9, 9), (4, 5), (12, 13), (13, 12), (14, 6), (14, 14)}
 
         def related(h):
             st_ = h["steps"]
@@ -556,7 +556,7 @@ def threads_stage(prop, tier, seed, races=6, race_threads=8):
             fh.write(json.dumps(h) + "\n")
     # reference: each call alone, in its own fresh single-threaded process
     ref_lines = ""
-    for c in range(12):
+    for c in range(15):
         refp = os.path.join(wd, f"ref{c}.ndjson")
         vlib.run_harness(["threads", "--reference", str(c), "--out", refp])
         ref_lines += open(refp).read()
@@ -682,3 +682,54 @@ def apalache_stage(prop, module, inv, length, negative_inv=None, timeout=900, ci
     st.notes["symbolic"] = note or "inputs are symbolic"
     st.wall = time.time() - t0
     return st
+
+
+def codec_trace_stage(prop, tier, seed):
+    """impl -> spec for the decoder: structured transformations of well-formed encodings, every decision validated by TLC."""
+    st = StageResult("trace:TraceCodec")
+    t0 = time.time()
+    cfg = "SPECIFICATION Spec\nCONSTRAINT Progress\nPOSTCONDITION Accepted\nCHECK_DEADLOCK FALSE\n"
+    for g in ("rist", "fm"):
+        wd = vlib.workdir(f"{prop}_codec_{g}")
+        tp = os.path.join(wd, "trace.ndjson")
+        info = json.loads(vlib.run_harness(["codectrace", "--out", tp, "--seed", str(seed), "--count", "60" if tier == "quick" else "600", "--group", g]))
+        events = [json.loads(x) for x in open(tp)]
+        cur = events
+        for _ in range(6):
+            if not cur:
+                break
+            wdr = vlib.workdir(f"{prop}_tvcodec_{g}_{_}")
+            p = os.path.join(wdr, "trace.ndjson")
+            with open(p, "w") as fh:
+                for e in cur:
+                    fh.write(json.dumps(e) + "\n")
+            r = vlib.run_tlc("TraceCodec", cfg, wdr, workers=1, timeout=900, java_opts=TRACE_JAVA, env_extra={"TRACE": p})
+            st.states += r.get("distinct", 0)
+            st.transitions += r.get("generated", 0)
+            rej = vlib.tagged_lines(r["out"], "REJECTED")
+            if not rej:
+                if not r["ok"]:
+                    raise vlib.ToolError("TLC failed on TraceCodec:\n" + r["out"][-2000:])
+                st.evaluations += len(cur)
+                st.traces += len(cur)
+                break
+            import re
+            pos = int(re.match(r"\s*(\d+),", rej[-1]).group(1))
+            bad = cur[pos - 1]
+            st.add_violation(f"[TraceCodec/{g}] decoder {'accepted' if bad['accepted'] else 'refused'} a {bad['len']}-byte string ({bad['how']}, first byte {bad['fb']}, "
+                             f"non-canonical chunks {bad['noncanon'][:6]}) against the acceptance set; reencodes={bad['reencodes']} serde={bad['serde_slice']}/{bad['serde_stream']}",
+                             {"kind": "codec", "group": g, "seed": seed, "tier": tier, "event": bad})
+            st.evaluations += pos
+            cur = cur[pos:]
+        for e in events:
+            st.distinct.add((e["how"], e["len"], e["fb"], tuple(e["noncanon"][:4])))
+        st.notes[g] = info
+    st.distinct = set(str(x) for x in st.distinct)
+    st.samples.append({"how": events[1]["how"], "len": events[1]["len"], "fb": events[1]["fb"], "accepted": events[1]["accepted"]})
+    st.wall = time.time() - t0
+    return st
+
+
+def replay_codec(rep):
+    st = codec_trace_stage("replay", rep.get("tier", "quick"), rep["seed"])
+    return [v["message"] for v in st.violations]
